@@ -30,6 +30,9 @@ RULE = ("cases: generated function / class signatures written as real modules in
         "phantom names, and a small malformed stream; help text per option is compared. call.cachemany: the same callable is "
         "requested again after config classes were derived for k in {1,50,130,300} other callables (identity, isinstance of "
         "the earlier object, equality of re-parses). "
+        "Round 2: mutable defaults (list, dict, non-frozen dataclass instance), zero-parameter callables, the three ways of "
+        "applying main (direct, factory form, sys.argv), config targets over the CLI type grammar (Path, Enum, List, Optional, "
+        "Literal, Union) incl. positional-only parameters, Partial[f], equal-but-differently-typed **defaults (1/1.0/True). "
         "Unit ops: only_keep_action_args over all stock action names, CPython binding, type inference, the Args-section "
         "reader on generated and hand-written docstrings. Non-trivial = a "
         "signature with >= 2 parameters and (non-empty argv | an ignore list / override | >= 2 cache calls | a filtered "
@@ -39,8 +42,17 @@ ASSUMPTIONS = [
     "dataclasses.make_dataclass builds the class from the (name, type, field) triples it is given (stdlib)",
     "the parse of the synthesised class is taken as a parameter: its outcome is the outcome of parsing the equivalent "
     "hand-written dataclass (checked on every case by the oracle, proved for nothing)",
-    "functools.lru_cache keys on (positional args, keyword items in call order) with == / hash (stdlib); generated "
-    "override values avoid cross-type equal values such as 1 == 1.0 == True",
+    "functools.lru_cache keys on (positional args, keyword items in call order) with == / hash (stdlib); the model's cache "
+    "key holds **defaults values up to Python equality (1 == 1.0 == True: open finding C20-cache-untyped-key)",
+    "READING of 'the same object for the same callable': identity is claimed for identically WRITTEN calls only — "
+    "config_for(f) / config_for(f, frozen=True) / ignore_args='b' vs ('b',) / a different order of **defaults are different "
+    "cache keys and give different classes (Lean: c20_cache_spelling_witness); Partial[f] is config_for(f)",
+    "EXCLUDED signatures: *args / **kwargs parameters (outside `Kind`; `main` turns them into REQUIRED options --args/--kw, "
+    "`def f(*args: int, **kw: str)` exits 2 on []); for config_for a parameter with neither annotation nor default is "
+    "dropped with a warning and an untyped `= None` default raises NotImplementedError for the whole callable (Lean: "
+    "c20_config_untyped_dropped, c20_config_none_default_witness) — the oracle makes no demand there",
+    "config_for marks a default-less Optional[...] parameter required=True while a hand-written Optional field is optional: "
+    "such parameters are not generated for config targets",
 ]
 TRUSTED = ["CPython argument binding (modelled by `bind`, compared against real calls by op call.bind)",
            "stdlib argparse action constructor signatures (table `stockCtorArgs`, compared by op call.keep)"]
@@ -57,8 +69,8 @@ TY = {
     "Path": {"cls": "plain", "dflt": ['Path("d/e")'], "tok": [["some/p"], ["q.txt"]], "bad": []},
     "bool": {"cls": "bool", "dflt": ["True", "False", "None"], "tok": [[], ["true"], ["False"]], "bad": [["maybe"]]},
     "Color": {"cls": "enum", "dflt": ["Color.RED", "Color.BLUE"], "tok": [["GREEN"], ["RED"]], "bad": [["PURPLE"]]},
-    "List[int]": {"cls": "list", "dflt": ["(1, 2)", "()", "@[1, 2]"], "tok": [["3", "4"], ["9"], []], "bad": [["z"]]},
-    "List[str]": {"cls": "list", "dflt": ['("a",)', '@["p", "q"]'], "tok": [["u", "v"], ["w"]], "bad": []},
+    "List[int]": {"cls": "list", "dflt": ["@[1, 2]", "@[]", "@[1, 2]", "[1, 2]"], "tok": [["3", "4"], ["9"], []], "bad": [["z"]]},
+    "List[str]": {"cls": "list", "dflt": ['@["a"]', '@["p", "q"]'], "tok": [["u", "v"], ["w"]], "bad": []},
     "Tuple[int, str]": {"cls": "tuple", "dflt": ['(1, "a")'], "tok": [["3", "q"]], "bad": [["3"]]},
     "Optional[int]": {"cls": "optional", "dflt": ["None", "3"], "tok": [["7"]], "bad": [["no"]]},
     "Optional[str]": {"cls": "optional", "dflt": ["None", '"o"'], "tok": [["txt"]], "bad": []},
@@ -69,12 +81,15 @@ TY = {
     # a config_for()/Partial class used as a parameter type; its instances are functools.partial objects
     "OptCfg": {"cls": "dc", "dflt": ["OptCfg(lr=0.5)", "OptCfg()", "OptCfg(momentum=0.0)"],
                "tok": [["--lr", "0.25"], ["--momentum", "0.5"], ["--lr", "2", "--momentum", "3"], []], "bad": [["--lr", "t"]]},
+    # an ordinary (non-frozen) dataclass: its instances are unhashable, i.e. "mutable defaults" for dataclasses
+    "M": {"cls": "dc", "dflt": ["M()", "M(5)"], "tok": [["--u", "4"], []], "bad": [["--u", "t"]]},
     # ordinary parameters whose default is a callable *object* (not a plain function): passed as is, never called
     "Any": {"cls": "plain", "dflt": ["functools.partial(pow, 2)", "3", "functools.partial(int, base=2)"],
             "tok": [["tok"], ["5"]], "bad": []},
-    None: {"cls": None, "dflt": ["3", '"s"', "None", "2.5", "@7", "functools.partial(pow, 2)"], "tok": [["tok"], ["5"]], "bad": []},
+    None: {"cls": None, "dflt": ["3", '"s"', "None", "2.5", "@7", "functools.partial(pow, 2)", "[1, 2]", "{}"], "tok": [["tok"], ["5"]], "bad": []},
 }
-DC_TYPES = ("N", "OptCfg")
+DC_TYPES = ("N", "OptCfg", "M")
+MUTABLE_DFLTS = {"[1, 2]", "[]", "{}", "M()", "M(5)", "{1, 2}"}     # values of an unhashable class
 SINGLE_TOKEN = ["int", "float", "str", "Path", "Color", "Union[int, str]", 'Literal["a", "b"]', None, "Any"]
 NAMES = ["a", "b", "c", "k", "rate", "my_val", "n_items", "seed", "tag", "out_dir", "w", "q", "beta", "mode", "e", "flag"]
 KINDS = ["posOnly", "posOrKw", "kwOnly"]
@@ -98,6 +113,11 @@ class Color(enum.Enum):
 class N:
     x: int = 1
     y: str = "a"
+
+
+@dataclass
+class M:
+    u: int = 1
 
 
 CALLS = []
@@ -244,10 +264,15 @@ def main_module_source(c):
         kw = []
         d = param_default_src(p, fn_names)
         if d is not None:
-            kw.append(("default_factory=" if p["dflt"].startswith("@") else "default=") + d)
+            if p["dflt"] in MUTABLE_DFLTS:      # Python does not allow writing it as `= value` in a dataclass
+                kw.append("default_factory=lambda: " + d)
+            else:
+                kw.append(("default_factory=" if p["dflt"].startswith("@") else "default=") + d)
         if p["kind"] == "posOnly":
             kw.append("positional=True")
         src += f"    {p['name']}: {ann}" + (f" = field({', '.join(kw)})" if kw else "") + "\n"
+    if not ordered:
+        src += "    pass\n"
     return src
 
 
@@ -277,7 +302,7 @@ def argv_of(c):
 
 
 def model_param(c, p, mod):
-    d = None
+    d, mutable = None, False
     if p["dflt"] is not None:
         if p["dflt"].startswith("@"):
             fn = getattr(mod, f"_df_{p['name']}")
@@ -285,8 +310,9 @@ def model_param(c, p, mod):
         else:
             v = eval(p["dflt"], vars(mod))  # noqa: S307 - literal written by the generator
             d = {"k": "value", "v": cs(v), "none": v is None}
+            mutable = type(v).__hash__ is None
     return {"name": p["name"], "kind": p["kind"], "ann": TY[p["ty"]]["cls"] if p["ty"] is not None else None,
-            "dflt": d, "help": help_of(c, p)}
+            "dflt": d, "help": help_of(c, p), "mutable": mutable}
 
 
 # ------------------------------------------------------------------------------------------------
@@ -294,7 +320,7 @@ def model_param(c, p, mod):
 
 
 def gen_params(rng, n=None, allow_bool=True, types=None, pos_types=None):
-    n = n or rng.choice([1, 2, 2, 3, 3, 4, 5, 6])
+    n = n if n is not None else rng.choice([0, 1, 1, 2, 2, 2, 3, 3, 3, 4, 4, 5, 5, 6, 6])
     names = rng.sample(NAMES, n)
     n_po = rng.choice([0, 0, 1, 1, 2, 3])
     n_po = min(n_po, n)
@@ -314,6 +340,8 @@ def gen_params(rng, n=None, allow_bool=True, types=None, pos_types=None):
             ty = rng.choice(types + [t for t in DC_TYPES if t not in have_dc])
         if ty == "bool" and (not allow_bool or rng.random() < 0.2):
             ty = "int"
+        if kind == "posOnly" and ty in TY and TY[ty]["cls"] == "list" and i + 1 < n_po:
+            ty = "int"      # a `*` positional followed by further positionals is split by argparse's own rules
         if ty in DC_TYPES:
             if ty in have_dc:
                 ty = "str"
@@ -322,6 +350,8 @@ def gen_params(rng, n=None, allow_bool=True, types=None, pos_types=None):
         has_d = (i >= first_default) if i < n_positional else rng.random() < 0.6
         d = rng.choice(TY[ty]["dflt"]) if has_d else None
         if d == "None" and ty in ("int", "bool") and rng.random() < 0.7:
+            d = TY[ty]["dflt"][0]
+        if d in MUTABLE_DFLTS and rng.random() < 0.75:      # keep the mutable-default finding from drowning everything else
             d = TY[ty]["dflt"][0]
         params.append({"name": name, "kind": kind, "ty": ty, "dflt": d, "doc": rng.random() < 0.6})
     return params
@@ -334,7 +364,9 @@ def give(rng, p, bad=False):
     else:
         tok = rng.choice(t["tok"])
     g = {"tok": list(tok), "form": "long"}
-    if p["ty"] == "bool":
+    if p["ty"] == "bool" and p["dflt"] == "None":
+        g = {"tok": [rng.choice(["true", "False"])], "form": "long"}      # `bool = None` is a plain store option: no --no flag
+    elif p["ty"] == "bool":
         r = rng.random()
         if p["kind"] != "posOnly" and r < 0.3:
             g = {"tok": [], "form": "neg"}
@@ -352,7 +384,9 @@ def give(rng, p, bad=False):
 def gen_main_case(rng, malformed=False, **kw):
     params = gen_params(rng, **kw)
     c = {"params": params, "future": rng.random() < 0.25, "doc": rng.random() < 0.5, "opts_first": rng.random() < 0.3,
-         "extra": [], "other_kw": [], "other_args": []}
+         "extra": [], "other_kw": [], "other_args": [],
+         # how the decorator is applied: main(f, args=…), the factory form main(args=…)(f), or main(f) reading sys.argv
+         "form": rng.choice(["direct", "direct", "factory", "sysargv"])}
     # positional-only: a prefix is supplied, covering at least the required ones
     po = [p for p in params if p["kind"] == "posOnly" and p["ty"] not in DC_TYPES]
     n_req = sum(1 for p in po if p["dflt"] is None)
@@ -366,9 +400,16 @@ def gen_main_case(rng, malformed=False, **kw):
             p["given"] = give(rng, p) if rng.random() < 0.7 else None
         else:
             p["given"] = give(rng, p) if (p["dflt"] is None or rng.random() < 0.55) else None
+    # a variable-length option in front of positional tokens would swallow them (argparse semantics, not ours)
+    if c["opts_first"] and any(p.get("given") and p["kind"] != "posOnly" and
+                               (TY[p["ty"]]["cls"] in ("list", "dc", "bool", "optional") or p["dflt"] == "None")
+                               for p in params) and any(p.get("given") and p["kind"] == "posOnly" for p in params):
+        c["opts_first"] = False
+    c["malformed"] = None
     if malformed:
         k = rng.choice(["drop", "bad", "unknown", "extrapos"])
         cand = [p for p in params if p.get("given") is not None]
+        c["malformed"] = k
         if k == "drop" and cand:
             rng.choice(cand)["given"] = None
         elif k == "bad" and cand:
@@ -377,6 +418,7 @@ def gen_main_case(rng, malformed=False, **kw):
         elif k == "unknown":
             c["extra"] = ["--zzz", "1"]
         else:
+            c["malformed"] = "extrapos"
             c["extra"] = ["stray"]
     r = rng.random()
     kwable = [p for p in params if p["kind"] != "posOnly"]
@@ -435,16 +477,24 @@ def gen_keep_case(rng):
 
 # ---- config_for
 
-CFG_TY = {
-    "int": {"dflt": ["2", "9", "0"], "tok": ["5", "12"], "shape": "int"},
-    "float": {"dflt": ["2.5", "0.5"], "tok": ["3.5", "1e-3"], "shape": "float"},
-    "str": {"dflt": ['"s"', '""', '"two words"'], "tok": ["word", "a b"], "shape": "str"},
-    "bool": {"dflt": ["True", "False"], "tok": [], "shape": "bool"},
-    "Tuple[int, int]": {"dflt": ["(3, 4)"], "tok": None, "shape": {"tuple": ["int", "int"]}},
+CFG_TY = {       # parameter types of config_for targets: the CLI type grammar
+    "int": {"dflt": ["2", "9", "0"], "toks": [["5"], ["12"]]},
+    "float": {"dflt": ["2.5", "0.5"], "toks": [["3.5"], ["1e-3"]]},
+    "str": {"dflt": ['"s"', '""', '"two words"'], "toks": [["word"], ["a b"]]},
+    "bool": {"dflt": ["True", "False"], "toks": []},
+    "Tuple[int, int]": {"dflt": ["(3, 4)"], "toks": [["7", "8"]]},
+    "Path": {"dflt": ['Path("d/e")'], "toks": [["some/p"]]},
+    "Color": {"dflt": ["Color.RED", "Color.BLUE"], "toks": [["GREEN"], ["RED"]]},
+    "List[int]": {"dflt": ["(1, 2)", "[1, 2]"], "toks": [["3", "4"], ["9"]]},
+    "Optional[int]": {"dflt": ["None", "3"], "toks": [["7"]]},
+    'Literal["a", "b"]': {"dflt": ['"a"'], "toks": [["b"]]},
+    "Union[int, str]": {"dflt": ["1", '"u"'], "toks": [["9"], ["zz"]]},
 }
+CFG_BASIC = ["int", "float", "str", "bool", "Tuple[int, int]"]
 CFG_UNANN_DFLT = [("2", "int", "int"), ("9", "int", "int"), ("2.5", "float", "float"), ('"s"', "str", "str"),
                   ("True", "bool", "bool"), ("(3, 4)", {"tuple": ["int", "int"]}, "Tuple[int, int]"),
-                  ('(2, "b")', {"tuple": ["int", "str"]}, None), ("None", "other", None), ('Path("p")', "other", None)]
+                  ('(2, "b")', {"tuple": ["int", "str"]}, None), ("None", "other", None), ('Path("p")', "other", None),
+                  ("[1, 2]", {"list": ["int", "int"]}, None), ("[]", {"list": []}, None), ("{}", {"dict": True}, None)]
 
 
 def shape_of_src(src):
@@ -470,15 +520,15 @@ def shape_of(v):
         return {"list": [shape_of(x) for x in v]}
     if isinstance(v, dict):
         return {"dict": len(v) == 0}
-    return "other"
+    return "unhashable" if type(v).__hash__ is None else "other"
 
 
-def gen_cfg_target(rng, idx=0, e2e=False):
+def gen_cfg_target(rng, idx=0, e2e=False, mutable_ok=True):
     """a function or class target for config_for"""
-    n = rng.choice([1, 2, 3, 3, 4, 5])
+    n = rng.choice([0, 1, 1, 2, 2, 3, 3, 3, 4, 4, 5, 5])
     names = rng.sample([x for x in NAMES if x != "flag"], n)
     is_class = rng.random() < 0.4
-    n_po = 1 if (not e2e and rng.random() < 0.1) else 0
+    n_po = 1 if (n and rng.random() < 0.1) else 0
     n_ko = rng.choice([0, 0, 1, 2])
     n_ko = min(n_ko, n - n_po)
     kinds = ["posOnly"] * n_po + ["posOrKw"] * (n - n_po - n_ko) + ["kwOnly"] * n_ko
@@ -489,8 +539,12 @@ def gen_cfg_target(rng, idx=0, e2e=False):
         has_d = (i >= first_default) if i < n_positional else rng.random() < 0.6
         r = rng.random()
         if r < 0.55:                                   # annotated
-            ty = rng.choice(list(CFG_TY))
+            ty = rng.choice(CFG_BASIC * 2 + list(CFG_TY))
             d = rng.choice(CFG_TY[ty]["dflt"]) if has_d else None
+            if d in MUTABLE_DFLTS and (not mutable_ok or rng.random() < 0.6):
+                d = CFG_TY[ty]["dflt"][0]
+            if d is None and ty.startswith("Optional"):
+                ty = "int"      # config_for marks a default-less parameter required=True; a hand-written Optional field is not
             params.append({"name": name, "kind": kind, "ty": ty, "dflt": d, "vty": ty})
         elif r < 0.7 and is_class:                     # class-level annotation only
             ty = rng.choice(["int", "float", "str"])
@@ -585,14 +639,22 @@ def doc_text(block, ind):
 
 
 def documented_help(block, name):
-    """descriptions (whitespace-normalised) the docstring gives for keys that start with `name` (the code's rule)"""
+    """descriptions (whitespace-normalised) the docstring gives for the parameter `name` itself: entries whose key is the
+    name, optionally followed by a type in parentheses (`name (int)`)"""
     if block is None:
         return []
     out = []
     for e in block["entries"]:
-        if e["key"].startswith(name):
+        if e["key"].split()[:1] == [name]:
             out.append(" ".join((e["desc"] + " " + " ".join(e["cont"])).split()))
     return out
+
+
+def prefix_keys(t, name):
+    """documented keys that merely START with `name` (another parameter's entry)"""
+    docs = t.get("docs") or {}
+    return [e["key"] for b in (docs.get("class"), docs.get("init")) if b is not None for e in b["entries"]
+            if e["key"].startswith(name) and e["key"].split()[:1] != [name]]
 
 
 def docs_malformed(t):
@@ -695,18 +757,15 @@ def gen_partial_case(rng, malformed=False):
             if vty == "bool":
                 if rng.random() < 0.5:
                     given.append([name, rng.choice(["pos", "neg"]), []])
-            elif vty == "Tuple[int, int]":
-                if eff_default is None or rng.random() < 0.4:
-                    given.append([name, "long", ["7", "8"]])
             elif vty in CFG_TY:
                 if eff_default is None or rng.random() < 0.5:
-                    given.append([name, "long", [rng.choice(CFG_TY[vty]["tok"])]])
-            if rng.random() < 0.15:
+                    given.append([name, "long", list(rng.choice(CFG_TY[vty]["toks"]))])
+            if rng.random() < 0.15 and p["kind"] != "posOnly":
                 call_kw.append([name, rng.randrange(500, 600)])          # explicit kwarg overrides the field
         else:
             # not an option: must come from the call (or the callee's own default)
             if p["dflt"] is None or rng.random() < 0.4:
-                if i == 0 and p["kind"] != "kwOnly" and rng.random() < 0.3:
+                if i == 0 and p["kind"] != "kwOnly" and (p["kind"] == "posOnly" or rng.random() < 0.3):
                     call_args.append(rng.randrange(700, 800))
                 else:
                     call_kw.append([name, rng.randrange(500, 600)])
@@ -726,24 +785,37 @@ def gen_partial_case(rng, malformed=False):
 
 
 def gen_cache_case(rng):
-    targets = [gen_cfg_target(rng, idx=i, e2e=True) for i in range(rng.choice([1, 2, 3]))]
+    targets = [gen_cfg_target(rng, idx=i, e2e=True, mutable_ok=False) for i in range(rng.choice([1, 2, 3]))]
     forms = []
     for ti, t in enumerate(targets):
         names = [p["name"] for p in t["params"]]
         for _ in range(rng.choice([1, 2, 3])):
             ov = gen_overrides(rng, t, e2e=True) if rng.random() < 0.4 else []
-            ov = [o for o in ov if o[0] != "not_a_param"]
+            ov = [o for o in ov if o[0] != "not_a_param" and o[1] not in MUTABLE_DFLTS]
             if len(ov) > 1 and rng.random() < 0.5:
                 ov = ov[::-1]
             forms.append({"target": ti, "ignore": gen_ignore(rng, names), "frozen": rng.choice([None, None, True, False]),
                           "overrides": ov, "unhashable_default": False})
+    for ti, t in enumerate(targets):
+        # the other front-end named in the property: `Partial[f]` (= config_for(f) written without arguments)
+        if rng.random() < 0.5:
+            forms.append({"target": ti, "ignore": {"form": "absent"}, "frozen": None, "overrides": [], "unhashable_default": False,
+                          "via": "Partial"})
+            forms.append({"target": ti, "ignore": {"form": "absent"}, "frozen": None, "overrides": [], "unhashable_default": False})
+        # `**defaults` values that are equal but of different types (1 == 1.0 == True)
+        nums = [p for p in t["params"] if p["ty"] in ("int", "float", "bool")]
+        if nums and rng.random() < 0.35:
+            p = rng.choice(nums)
+            for lit in rng.sample(["1", "1.0", "True"], rng.choice([2, 3])):
+                forms.append({"target": ti, "ignore": {"form": "absent"}, "frozen": None, "overrides": [[p["name"], lit]],
+                              "unhashable_default": False})
     calls = [dict(rng.choice(forms)) for _ in range(rng.randrange(2, 9))]
-    if rng.random() < 0.15:
+    if rng.random() < 0.15 and targets[calls[0]["target"]]["params"]:
         # an unhashable **defaults value: never cached
-        i = rng.randrange(len(calls))
+        i = 0
         t = targets[calls[i]["target"]]
         calls[i] = dict(calls[i], overrides=[[t["params"][0]["name"], "[1, 2]"]], unhashable_default=True,
-                        ignore={"form": "tuple", "names": [t["params"][0]["name"]]})
+                        ignore={"form": "tuple", "names": [t["params"][0]["name"]]}, via=None)
     return {"targets": targets, "calls": calls}
 
 
@@ -768,6 +840,8 @@ CACHE_KS = [1, 50, 130, 300]
 def gen_cachemany_case(rng, k):
     def parses(c):      # every required option is on the command line
         ign, ov, given = set(ignore_names(c["ignore"])), dict(c["overrides"]), {g[0] for g in c["given"]}
+        if any(ov.get(p["name"], p["dflt"]) in MUTABLE_DFLTS for p in c["target"]["params"]):
+            return False
         return all(p["name"] in given for p in c["target"]["params"]
                    if p["name"] not in ign and p["vty"] is not None and ov.get(p["name"], p["dflt"]) is None)
 
@@ -1002,8 +1076,20 @@ def impl_main(c):
         # (2) the front-end
         sp.reset_globals()
         mod.CALLS.clear()
-        wrapped = decorators.main(mod.rec, args=list(argv))
-        mr = sp.run_outcome(lambda: wrapped(*c.get("other_args", []), **dict(c.get("other_kw", []))))
+        form = c.get("form", "direct")
+        if form == "factory":
+            wrapped = decorators.main(args=list(argv))(mod.rec)
+        elif form == "sysargv":
+            wrapped = decorators.main(mod.rec)
+        else:
+            wrapped = decorators.main(mod.rec, args=list(argv))
+        saved_argv = sys.argv
+        try:
+            if form == "sysargv":
+                sys.argv = ["prog"] + list(argv)
+            mr = sp.run_outcome(lambda: wrapped(*c.get("other_args", []), **dict(c.get("other_kw", []))))
+        finally:
+            sys.argv = saved_argv
         m = _outcome(mr)
         m["n_calls"] = len(mod.CALLS)
         if mod.CALLS:
@@ -1012,7 +1098,12 @@ def impl_main(c):
             m["kwargs"] = sorted([n, cs(v)] for n, v in k.items())
         if mr["o"] == "ok":
             m["bound"] = [[n, cs(v)] for n, v in mr["value"].items()]
-        return {"sig": sig, "argv": argv, "plain": plain, "expected": expected, "main": m}
+        # the signature's own defaults, read from the callable (independent of the Plain class)
+        sig_defaults = {}
+        for n, prm in inspect.signature(mod.target).parameters.items():
+            if prm.default is not inspect.Parameter.empty:
+                sig_defaults[n] = cs(prm.default() if inspect.isfunction(prm.default) else prm.default)
+        return {"sig": sig, "argv": argv, "plain": plain, "expected": expected, "main": m, "sig_defaults": sig_defaults}
 
 
 def _cfg_module_source(targets):
@@ -1044,7 +1135,8 @@ def _cfg_fields(cls):
     out = []
     for f in dataclasses.fields(cls):
         req = f.default is dataclasses.MISSING and f.default_factory is dataclasses.MISSING
-        out.append({"name": f.name, "required": req, "default": None if req else cs(f.default),
+        dv = f.default if f.default is not dataclasses.MISSING else (None if req else f.default_factory())
+        out.append({"name": f.name, "required": req, "default": None if req else cs(dv),
                     "help": f.metadata.get("custom_args", {}).get("help")})
     return out
 
@@ -1103,7 +1195,7 @@ def impl_config(c):
         oc = sp.run_outcome(lambda: _options_per_field(cls))
         obs["options"] = oc["value"] if oc["o"] == "ok" else {"error": oc.get("exc")}
         obs["again_same"] = None
-        if c["ignore"]["form"] != "list":
+        if c["ignore"]["form"] != "list" and not any(v in MUTABLE_DFLTS for _, v in c["overrides"]):
             obs["again_same"] = eval(src, env) is cls  # noqa: S307
         return obs
 
@@ -1125,6 +1217,22 @@ def _bound_of(result):
     return [[n, cs(v)] for n, v in b.items()] if isinstance(b, dict) else None
 
 
+def _plain_default_src(d):
+    if d is None:
+        return ""
+    return f" = field(default_factory=lambda: {d})" if d in MUTABLE_DFLTS else f" = {d}"
+
+
+def _direct_call(target, params, call_args, vals, call_kw):
+    """the direct call with the same values: a parsed value of a positional-only parameter goes positionally (as Python
+    requires); what the caller wrote explicitly stays as written"""
+    args, kw = list(call_args), {**vals, **call_kw}
+    for i, p in enumerate(params):
+        if p["kind"] == "posOnly" and i == len(args) and p["name"] in vals and p["name"] not in call_kw:
+            args.append(kw.pop(p["name"]))
+    return target(*args, **kw)
+
+
 def impl_partial(c):
     import simple_parsing
     from simple_parsing.helpers.partial import config_for
@@ -1137,7 +1245,7 @@ def impl_partial(c):
     ordered = [p for p in flds if ov.get(p["name"], p["dflt"]) is None] + \
               [p for p in flds if ov.get(p["name"], p["dflt"]) is not None]
     plain_src = "@dataclass\nclass Plain:\n" + "".join(
-        f"    {p['name']}: {p['vty']}" + (f" = {ov.get(p['name'], p['dflt'])}" if ov.get(p["name"], p["dflt"]) is not None else "")
+        f"    {p['name']}: {p['vty']}" + _plain_default_src(ov.get(p["name"], p["dflt"]))
         + "\n" for p in ordered) + ("    pass\n" if not ordered else "")
     argv = _partial_argv(c)
     with temp_module(_cfg_module_source([t]) + "\n" + plain_src) as mod:
@@ -1159,7 +1267,7 @@ def impl_partial(c):
             inst = pr["value"]
             vals = {p["name"]: getattr(inst, p["name"]) for p in ordered}
             plain["vals"] = [[k, cs(v)] for k, v in vals.items()]
-            er = sp.run_outcome(lambda: target(*call_args, **{**vals, **call_kw}))
+            er = sp.run_outcome(lambda: _direct_call(target, t["params"], call_args, vals, call_kw))
             obs["expected"] = _bound_of(er["value"]) if er["o"] == "ok" else {"raise": er.get("exc")}
         obs["plain"] = plain
         src = _config_for_src(t["name"], c["ignore"], c["overrides"], c["frozen"])
@@ -1191,16 +1299,22 @@ def impl_cache(c):
     from simple_parsing.helpers.partial import config_for
 
     with temp_module(_cfg_module_source(c["targets"])) as mod:
-        env = dict(vars(mod), config_for=config_for)
-        objs, ids, fields = [], [], []
+        from simple_parsing.helpers.partial import Partial
+
+        env = dict(vars(mod), config_for=config_for, Partial=Partial)
+        objs, ids, fields, defaults, expected_defaults = [], [], [], [], []
         for call in c["calls"]:
             t = c["targets"][call["target"]]
             src = _config_for_src(t["name"], call["ignore"], call["overrides"], call["frozen"])
+            if call.get("via") == "Partial":
+                src = f"Partial[{t['name']}]"
+            expected_defaults.append({k: cs(eval(v, vars(mod))) for k, v in call["overrides"]})  # noqa: S307
             r = sp.run_outcome(lambda: eval(src, env))  # noqa: S307
             if r["o"] != "ok":
                 # an unhashable default that also is a mutable dataclass default: the call itself fails
                 ids.append({"raise": r.get("exc")})
                 fields.append(None)
+                defaults.append(None)
                 continue
             cls = r["value"]
             for i, o in enumerate(objs):
@@ -1211,7 +1325,8 @@ def impl_cache(c):
                 objs.append(cls)
                 ids.append(len(objs) - 1)
             fields.append([f.name for f in dataclasses.fields(cls)])
-        return {"ids": ids, "fields": fields}
+            defaults.append({f.name: cs(f.default) for f in dataclasses.fields(cls) if f.name in dict(call["overrides"])})
+        return {"ids": ids, "fields": fields, "defaults": defaults, "expected_defaults": expected_defaults}
 
 
 def impl_docargs(c):
@@ -1295,7 +1410,20 @@ def _parse_for_model(plain):
 def _cache_key(call):
     ig = call["ignore"]
     return {"target": call["target"], "ignore": ig, "frozen": call["frozen"],
-            "defaults": [[k, v] for k, v in call["overrides"]], "hashable": not call.get("unhashable_default", False)}
+            "defaults": [[k, _pyeq(v)] for k, v in call["overrides"]], "hashable": not call.get("unhashable_default", False)}
+
+
+def _pyeq(src):
+    """the class of a literal under Python `==` / hash (what an untyped lru_cache key distinguishes)"""
+    import ast
+
+    try:
+        v = ast.literal_eval(src)
+    except (ValueError, SyntaxError):
+        return src
+    if isinstance(v, (bool, int, float)):
+        return f"num:{float(v)!r}"
+    return src
 
 
 def model_case(case, obs):
@@ -1325,8 +1453,12 @@ def model_case(case, obs):
                   for i in range(c["k"])]
         return {"calls": [main] + others + [main]}
     if op == "call.partial":
+        ign = set(ignore_names(c["ignore"]))
+        ov = dict(c["overrides"])
+        mutable = any(p["name"] not in ign and p["vty"] is not None and ov.get(p["name"], p["dflt"]) in MUTABLE_DFLTS
+                      for p in c["target"]["params"])
         return {"sig": obs["sig"], "parse": _parse_for_model(obs["plain"]), "args": [cs(v) for v in c["call_args"]],
-                "kwargs": [[k, cs(v)] for k, v in c["call_kw"]]}
+                "kwargs": [[k, cs(v)] for k, v in c["call_kw"]], "mutable_field_default": mutable}
     if op == "call.cache":
         return {"calls": [_cache_key(call) for call in c["calls"]]}
     raise ValueError(op)
@@ -1416,6 +1548,18 @@ def oracle(case, obs):
     elif op == "call.main":
         m, plain = obs["main"], obs["plain"]
         runtime_args = bool(c.get("other_args") or c.get("other_kw"))
+        # clauses that do not look at the hand-written dataclass at all
+        if not c.get("malformed") and not runtime_args:
+            if m["o"] != "ok" or m.get("n_calls") != 1:
+                fails.append({"clause": "must-call", "detail": f"well-formed argv {obs['argv']}: the callable is not called "
+                                                               f"exactly once: main -> {m}", "front": m})
+            else:
+                bound = dict(m["bound"])
+                for p in c["params"]:
+                    if p.get("given") is None and p["dflt"] is not None and bound.get(p["name"]) != obs["sig_defaults"].get(p["name"]):
+                        fails.append({"clause": "signature-default", "front": m,
+                                      "detail": f"omitted parameter {p['name']}: received {bound.get(p['name'])}, "
+                                                f"signature default {obs['sig_defaults'].get(p['name'])}"})
         if plain["o"] == "ok":
             if runtime_args:
                 pass      # the property text says nothing about extra run-time arguments
@@ -1439,6 +1583,9 @@ def oracle(case, obs):
                 fails.append({"clause": "rejection", "detail": "callable invoked although the command line was rejected"})
     elif op == "call.fields":
         m = obs["main"]
+        if "fields" in m and m["setup"]["o"] != "ok":
+            fails.append({"clause": "must-call", "detail": f"the parser for the synthesised class cannot be built: {m['setup']}",
+                          "front": m["setup"]})
         if "fields" not in m and "fields" in obs["plain"]:
             fails.append({"clause": "all-types", "detail": f"the equivalent dataclass can be wrapped, the class synthesised by main "
                                                            f"cannot: {m}", "front": m})
@@ -1494,20 +1641,26 @@ def oracle(case, obs):
             explained = (o["exc"] == "NotImplementedError" and uninferable) or \
                         (o["exc"] in ("ValueError", "KeyError") and docs_malformed(t))
             if not explained:
-                fails.append({"clause": "derive", "detail": f"{obs['call']} raises {o['exc']}: {o.get('msg', '')[:120]} "
-                                                            f"(docstrings: {obs['docs']['class_doc']!r} / {obs['docs']['init_doc']!r})"})
+                fails.append({"clause": "derive", "front": o,
+                              "detail": f"{obs['call']} raises {o['exc']}: {o.get('msg', '')[:120]} "
+                                        f"(docstrings: {obs['docs']['class_doc']!r} / {obs['docs']['init_doc']!r})"})
         if o["o"] == "ok":
             ign = set(ignore_names(c["ignore"]))
             docs = t.get("docs") or {}
             for f in o["fields"]:
-                cands = documented_help(docs.get("init"), f["name"]) or documented_help(docs.get("class"), f["name"])
+                cands = documented_help(docs.get("init"), f["name"]) + documented_help(docs.get("class"), f["name"])
+                if not cands and " ".join((f["help"] or "").split()):
+                    fails.append({"clause": "help", "param": f["name"],
+                                  "detail": f"{f['name']} is not documented but carries the help {f['help']!r}"})
                 if cands:
                     if " ".join((f["help"] or "").split()) not in cands:
-                        fails.append({"clause": "help", "detail": f"{f['name']}: help {f['help']!r}, documented {cands}"})
+                        fails.append({"clause": "help", "param": f["name"],
+                                      "detail": f"{f['name']}: help {f['help']!r}, documented {cands}"})
                     ah = obs["options"].get("help:" + f["name"]) if isinstance(obs["options"], dict) else None
                     # (an action may decorate the text, e.g. the boolean action appends "(default: …)")
                     if ah is not None and not any(cand in " ".join(ah.split()) for cand in cands):
-                        fails.append({"clause": "help", "detail": f"{f['name']}: parser help {ah!r}, documented {cands}"})
+                        fails.append({"clause": "help", "param": f["name"],
+                                      "detail": f"{f['name']}: parser help {ah!r}, documented {cands}"})
             ov = {k: v for k, v in obs["overrides"]}
             sigd = {p["name"]: p for p in obs["sig"]}
             got = {f["name"]: f for f in o["fields"]}
@@ -1538,17 +1691,15 @@ def oracle(case, obs):
                 fails.append({"clause": "cached", "detail": f"{obs['call']} evaluated twice gives two classes"})
     elif op == "call.partial":
         f, plain = obs["front"], obs["plain"]
-        has_po = any(p["kind"] == "posOnly" for p in c["target"]["params"])
         if f.get("stage") == "config_for":
             if not docs_malformed(c["target"]):
-                fails.append({"clause": "derive", "detail": f"config_for raises {f.get('exc')}: {f.get('msg', '')[:120]}"})
-        elif has_po:
-            pass
+                fails.append({"clause": "derive", "detail": f"config_for raises {f.get('exc')}: {f.get('msg', '')[:120]}", "front": f})
         elif plain["o"] == "ok":
             exp = obs["expected"]
             if isinstance(exp, list):
                 if f["o"] != "ok" or f.get("stage") != "call":
-                    fails.append({"clause": "partial-call", "detail": f"argv {obs['argv']}: direct call works, front-end -> {f}"})
+                    fails.append({"clause": "partial-call", "detail": f"argv {obs['argv']}: direct call works, front-end -> {f}",
+                                  "front": f})
                 elif f["bound"] != exp or f["n_calls"] != 1:
                     fails.append({"clause": "partial-call", "detail": f"argv {obs['argv']}: callable received {f['bound']}, expected {exp}"})
             elif f["o"] == "ok":
@@ -1568,6 +1719,10 @@ def oracle(case, obs):
             for p in t["params"]:
                 if p["name"] not in ign and p["vty"] is not None and p["name"] not in (obs["fields"][i] or []):
                     fails.append({"clause": "one-option", "detail": f"call {i}: no field for {p['name']}"})
+            for n, exp in (obs.get("expected_defaults") or [{}] * len(c["calls"]))[i].items():
+                got = (obs["defaults"][i] or {}).get(n)
+                if n not in ign and got is not None and got != exp:
+                    fails.append({"clause": "cache-typed", "detail": f"call {i}: requested default {n}={exp}, the class returned has {got}"})
             if call["ignore"]["form"] == "list" or call.get("unhashable_default"):
                 continue
             key = json.dumps([call["target"], call["ignore"], call["frozen"], call["overrides"]], sort_keys=True)
@@ -1584,7 +1739,96 @@ def oracle(case, obs):
 # ------------------------------------------------------------------------------------------------
 
 
-FINDINGS = {}
+def _front(fail):
+    return fail.get("front") or {}
+
+
+def _main_params(case):
+    return case["case"].get("params") or []
+
+
+def _cls(p):
+    return TY[p["ty"]]["cls"] if p.get("ty") in TY else None
+
+
+def _f_posonly_optional(case, obs, fail):
+    """a positional-only Optional[...] / `= None` parameter: argparse rejects `required=` for positionals at set-up"""
+    f = _front(fail)
+    return (case["op"] in ("call.main", "call.fields") and f.get("o") == "raise" and f.get("exc") == "TypeError"
+            and "'required' is an invalid argument for positionals" in (f.get("msg") or "")
+            and any(p["kind"] == "posOnly" and _cls(p) not in ("choice", "dc") and (_cls(p) == "optional" or p["dflt"] == "None")
+                    for p in _main_params(case)))
+
+
+def _f_posonly_bool(case, obs, fail):
+    """a positional-only bool parameter: BooleanOptionalAction.__call__ raises NotImplementedError for positionals"""
+    f = _front(fail)
+    return (case["op"] == "call.main" and f.get("o") == "raise" and f.get("exc") == "NotImplementedError"
+            and "positional arguments" in (f.get("msg") or "")
+            and any(p["kind"] == "posOnly" and p["ty"] == "bool" and p["dflt"] != "None" for p in _main_params(case)))
+
+
+def _f_posonly_tuple_default(case, obs, fail):
+    """a positional-only fixed-length Tuple parameter with a default: nargs=N makes it required, the default is unusable"""
+    f = _front(fail)
+    return (case["op"] == "call.main" and fail.get("clause") == "must-call" and f.get("o") == "exit" and f.get("code") == 2
+            and any(p["kind"] == "posOnly" and _cls(p) == "tuple" and p["dflt"] is not None and p.get("given") is None
+                    for p in _main_params(case)))
+
+
+def _f_mutable_default(case, obs, fail):
+    """a default whose class is unhashable (list, dict, non-frozen dataclass instance): make_dataclass raises ValueError"""
+    f = _front(fail)
+    if not (f.get("o") == "raise" and f.get("exc") == "ValueError" and "mutable default" in (f.get("msg") or "")):
+        return False
+    c = case["case"]
+    if case["op"] in ("call.main", "call.fields"):
+        return any(p["dflt"] in MUTABLE_DFLTS for p in c["params"])
+    if case["op"] in ("call.config", "call.partial", "call.cachemany"):
+        ov = dict(c.get("overrides", []))
+        return any(ov.get(p["name"], p["dflt"]) in MUTABLE_DFLTS for p in c["target"]["params"])
+    return False
+
+
+def _f_partial_posonly(case, obs, fail):
+    """Partial.__call__ passes every field by keyword: a target with a positional-only parameter cannot be called"""
+    f = _front(fail)
+    c = case["case"]
+    if case["op"] != "call.partial" or fail.get("clause") != "partial-call":
+        return False
+    ign = set(ignore_names(c["ignore"]))
+    return (f.get("stage") == "call" and f.get("o") == "raise" and f.get("exc") == "TypeError"
+            and "positional-only arguments passed as keyword" in (f.get("msg") or "")
+            and any(p["kind"] == "posOnly" and p["name"] not in ign and p["vty"] is not None for p in c["target"]["params"]))
+
+
+def _f_help_prefix(case, obs, fail):
+    """help lookup matches `key.startswith(name)`: a parameter picks up the text of a longer-named one"""
+    return (case["op"] == "call.config" and fail.get("clause") == "help" and fail.get("param") is not None
+            and bool(prefix_keys(case["case"]["target"], fail["param"])))
+
+
+def _f_cache_untyped(case, obs, fail):
+    """lru_cache(typed=False): config_for(f, b=1) / b=1.0 / b=True share one cache entry"""
+    if case["op"] != "call.cache" or fail.get("clause") != "cache-typed":
+        return False
+    calls = case["case"]["calls"]
+    keys = {}
+    for call in calls:
+        for k, v in call["overrides"]:
+            keys.setdefault((call["target"], k, _pyeq(v)), set()).add(v)
+    return any(len(v) > 1 for v in keys.values())
+
+
+FINDINGS = {
+    "C20-partial-posonly": _f_partial_posonly,
+    "C20-help-prefix-match": _f_help_prefix,
+    "C20-cache-untyped-key": _f_cache_untyped,
+    "C20-posonly-optional": _f_posonly_optional,
+    "C20-posonly-bool": _f_posonly_bool,
+    "C20-posonly-tuple-default": _f_posonly_tuple_default,
+    "C20-mutable-default": _f_mutable_default,
+}
 
 
 def nontrivial(case, obs):
@@ -1621,8 +1865,20 @@ def tags(case, obs):
             t.append("dflt:" + ("none" if p["dflt"] is None else ("func" if p["dflt"].startswith("@") else ("None" if p["dflt"] == "None" else (
                 "partial-object" if p["dflt"].startswith("functools.partial") else (
                     "config-instance" if p["dflt"].startswith("OptCfg") else "value"))))))
+            if p["dflt"] in MUTABLE_DFLTS:
+                t.append("dflt:mutable")
+            if op == "call.main":
+                g = p.get("given")
+                t.append("arg:" + ("omitted" if g is None else ("positional" if p["kind"] == "posOnly" and p["ty"] not in DC_TYPES
+                                                                else ("nested-options" if p["ty"] in DC_TYPES else g.get("form", "long")))))
+                if p["kind"] == "posOnly" and p["ty"] in DC_TYPES:
+                    t.append("dataclass-positional-only")
         if op == "call.main":
             m = obs["main"]
+            t.append("form:" + c.get("form", "direct"))
+            t.append("malformed:" + str(c.get("malformed")))
+            if c.get("opts_first"):
+                t.append("options-before-positionals")
             t.append("main:" + (m["o"] if m["o"] != "raise" else "raise:" + str(m["exc"])))
             t.append("plain:" + obs["plain"]["o"])
             if c.get("future"):
@@ -1646,8 +1902,15 @@ def tags(case, obs):
                 if b.get("malformed"):
                     t.append("doc:malformed")
         t.append("target:" + ("class" if c["target"]["is_class"] else "function"))
+        t.append(f"n:{len(c['target']['params'])}")
+        for p in c["target"]["params"]:
+            t.append("cfg-ty:" + (p["ty"] or ("class-annotation" if p["vty"] else "untyped")))
+            t.append("cfg-kind:" + p["kind"])
     elif op == "call.partial":
         f = obs["front"]
+        for p in c["target"]["params"]:
+            t.append("cfg-ty:" + (p["ty"] or ("inferred" if p["vty"] else "untyped")))
+            t.append("cfg-kind:" + p["kind"])
         t.append("partial:" + f.get("stage", "?") + ":" + f["o"])
         t.append("target:" + ("class" if c["target"]["is_class"] else "function"))
         if c["call_kw"]:
@@ -1660,6 +1923,10 @@ def tags(case, obs):
     elif op == "call.cache":
         t.append(f"calls:{len(c['calls'])}")
         t.append(f"distinct:{len({json.dumps(i) for i in obs['ids']})}")
+        if any(call.get("via") == "Partial" for call in c["calls"]):
+            t.append("via:Partial[f]")
+        if len({_pyeq(v) for call in c["calls"] for _, v in call["overrides"]}) < len({v for call in c["calls"] for _, v in call["overrides"]}):
+            t.append("equal-but-differently-typed-defaults")
     return t
 
 
@@ -1728,18 +1995,28 @@ def shrink(case):
 
 
 MANIFEST = {
-    "text": ("Proof, full (D4 repaired in a47a1e0). Lean theorems over the model of "
-             "decorators.main / config_for / Partial.__call__ / only_keep_action_args: for every legal signature (any "
-             "length) the call made by `main` binds every parameter to the value parsed for it, positional-only parameters "
-             "positionally in signature order (stable-sort lemma) and all others by keyword; `main` adds no set-up failure "
-             "of its own for any supported parameter type including bool (the synthesised class sets up exactly when the "
-             "equivalent dataclass does); "
-             "config_for yields exactly one field per non-ignored typed parameter with the override/signature default "
-             "(exact list characterisation); Partial.__call__ passes field values with explicit kwargs winning and binds "
-             "them to the target's parameters; a cached key returns the stored class after any number of further calls "
-             "(unbounded cache); an Args entry is split at its first colon only, so descriptions may contain colons. The model is "
-             "tied to the code by ten correspondence ops and the property's statement is evaluated on every real call "
-             "(recording stub vs. direct call with values from the equivalent hand-written dataclass)."),
+    "text": ("Proof, PARTIAL (named gaps below). PROVED for all inputs, in the model: (a) for every legal signature of any "
+             "length the call made by `main` binds every parameter to the value looked up for it, positional-only parameters "
+             "positionally in signature order (stable-sort lemma), all others by keyword (c20_main_args, c20_main_run); (b) the "
+             "fields `main` synthesises agree item by item (name, type class, default/factory, positional) with the "
+             "independently written equivalent dataclass and meet the same fate in add_argument (c20_fields_agree, "
+             "c20_all_types), and set-up succeeds EXACTLY when no parameter is a positional-only Optional/`= None` one — bool "
+             "included (closed form c20_addArgument_closed, c20_setup_ok, c20_setup_fails); (c) config_for's field list is "
+             "exactly the typed, non-ignored parameters with the override/signature default (c20_config_fields/_options, under "
+             "the exclusions Inferable and NoMutableCfg, each with a witness); (d) Partial.__call__: explicit kwargs win, "
+             "ignored/skipped parameters keep the callee's default, and the target binds exactly those values for targets "
+             "without positional-only parameters (c20_partial_call, c20_config_then_call); (e) the unbounded cache returns the "
+             "stored class after any number of other calls (c20_cached); (f) an Args entry splits at its first colon only. "
+             "NAMED GAPS, each refuted by a `_witness` theorem and recorded as an open finding with a replay: "
+             "C20-posonly-optional, C20-posonly-bool, C20-posonly-tuple-default, C20-mutable-default, C20-partial-posonly, "
+             "C20-help-prefix-match, C20-cache-untyped-key. SAMPLED ONLY (no theorem; the parse is a parameter of the model): "
+             "that the synthesised class PARSES like the hand-written one — values, signature defaults for omitted options, "
+             "nested groups for dataclass-typed parameters —, one parser option per field, help texts, and the identity of the "
+             "real lru_cache; these are checked on every generated case by the oracle (recording stub vs. a direct call with "
+             "the values of the equivalent dataclass, plus two clauses that do not use that dataclass at all: a well-formed "
+             "command line ends in exactly one call, an omitted parameter receives inspect.signature's default). Reading of "
+             "'same object for the same callable': identically written calls (see ASSUMPTIONS). The model is tied to the code "
+             "by ten correspondence ops."),
     "note": ("Trusted: Lean kernel + standard axioms; inspect.signature, make_dataclass, CPython argument binding "
              "(modelled, compared by op call.bind), lru_cache keying; the parse of the synthesised class is a parameter of "
              "the model (its agreement with the equivalent dataclass is checked by the oracle on every case, not proved). "
